@@ -132,6 +132,19 @@ func (pr *Program) RunAnalyses(prop string) []*Obligation {
 	switch prop {
 	case "C15":
 		return pr.AnalysisC15ClosureFrames()
+	case "C14":
+		// "fails without any state change" for the sweeps rests on the same closure frames: a step that works on the outer
+		// context is not rolled back when the price it needs is missing
+		var out []*Obligation
+		for _, o := range pr.AnalysisC15ClosureFrames() {
+			if strings.Contains(o.Name, "/frame#c15-closure") && (strings.Contains(o.Name, "x/liquidation") || strings.Contains(o.Name, "x/auction")) {
+				c := *o
+				c.Name = strings.Replace(o.Name, "/frame#c15-closure", "/frame#c14-step-is-rolled-back", 1)
+				c.Prop = "C14"
+				out = append(out, &c)
+			}
+		}
+		return out
 	case "C16":
 		return pr.AnalysisC16()
 	case "C20":
